@@ -80,7 +80,8 @@ def spec_serialize(main, calls):
             _, meta, enc = c[:3]
             e = enc or eff[level]
             text = json.dumps(meta, indent=4, sort_keys=True, separators=(',', ': '))
-            body = text.encode(e) + newline_bytes('unix', e)
+            # with no encoding in force content is 8-bit data; canonical JSON is pure ASCII
+            body = text.encode(e or 'ascii') + newline_bytes('unix', e)
             out.append(header('.' * (level + 1) + 'meta', {'encoding': enc, 'format': 'json', 'length': len(body)}))
             out.append(body)
         elif name == 'write_diff':
